@@ -40,7 +40,7 @@ def rand_addr(rng, atyp):
         return rng.choice([bytes(15) + b"\x01", bytes(10) + b"\xff\xff" + rbytes(rng, 4), bytes(12) + rbytes(rng, 4),
                            rbytes(rng, 16), bytes(16)])
     if atyp == 3:
-        return name_bytes(rng, rng.choice([0, 1, 2, 3, 7, 11, 63, 254, 255, rng.randrange(256)]))
+        return name_bytes(rng, rng.choice([0, 1, 2, 3, 4, 5, 7, 11, 15, 16, 17, 63, 254, 255, rng.randrange(256)]))
     return rbytes(rng, rng.choice([0, 1, 4, 6, 20]))
 
 
@@ -249,9 +249,26 @@ def enum_datagrams():
                     pts = range(len(d) + 1) if len(d) <= 48 else sorted(set(list(range(12)) + list(range(len(d) - 8, len(d) + 1))))
                     for t in pts:
                         out.append({"k": "udp", "d": d[:t].hex()})
+    # every domain-name length 0..255 (whole datagram; parse, then build -> parse on the real relay): a name of exactly 4 or
+    # 16 bytes must stay a name ("t.co", "0123456789abcdef"), whatever it looks like
+    for al in range(256):
+        for name in (bytes((0x61 + i % 26) for i in range(al)), (b"t.co.example.org-" * 16)[:al]):
+            out.append({"k": "udp", "d": (bytes([0, 0, 0, 3, al]) + name + b"\x01\xbb" + b"pay").hex()})
     # IPv6 addresses with special forms
     for a16 in (bytes(10) + b"\xff\xff\x01\x02\x03\x04", bytes(12) + b"\x01\x02\x03\x04", bytes(15) + b"\x01", bytes(16)):
         out.append({"k": "udp", "d": (bytes([0, 0, 0, 4]) + a16 + b"\x01\xbb" + b"xy").hex()})
+    return out
+
+
+def enum_name_lengths():
+    """every domain-name length 0..255 through buildUDPHeader and through both TCP parsers (one-shot and byte-wise)"""
+    out = []
+    for al in range(256):
+        name = (b"t.co.example.org-" * 16)[:al]
+        out.append({"k": "build", "host": name.hex(), "port": 443, "payload": "70"})
+        s = bytes([5, 1, 0, 5, 1, 0, 3, al]) + name + b"\x01\xbb" + b"\xAA"
+        for kind in ("listener", "adapter"):
+            out.append(mk_session(kind, s, [] if al % 2 else [1] * len(s)))
     return out
 
 
@@ -263,7 +280,7 @@ def rand_build(rng):
         host = rng.choice([b"::1", b"::", b"2001:4860:4860::8888", b"::ffff:1.2.3.4", b"0:0:0:0:0:0:0:1", b"fe80::1",
                            b"::1.2.3.4", b"1:2:3:4:5:6:7:8", b"::FFFF:0102:0304", b"fe80::1%eth0", b"01.2.3.4", b"1.2.3"])
     elif k < 0.8:
-        host = name_bytes(rng, rng.choice([0, 1, 2, 11, 63, 254, 255]))
+        host = name_bytes(rng, rng.choice([0, 1, 2, 3, 4, 5, 11, 15, 16, 17, 63, 254, 255]))
     else:
         host = rbytes(rng, rng.choice([1, 4, 16, 40, 255]))
     port = rng.choice([0, 53, 80, 65535, rng.randrange(65536)])
@@ -459,6 +476,7 @@ def run(ctx, only_cases=None):
         cases += ud
         cases += [rand_datagram(rng) for _ in range(20000 if thorough else 1500)]
         cases += [rand_build(rng) for _ in range(4000 if thorough else 400)]
+        cases += enum_name_lengths()
         cases += enum_histories()
         cases += [rand_history(rng) for _ in range(3000 if thorough else 300)]
         cases += conc_cases(rng, 60 if thorough else 10, 8 if thorough else 4)
@@ -555,7 +573,8 @@ def run(ctx, only_cases=None):
                 "flips / insertions / deletions / random bytes), the structured enumeration ver x nmethods{0,1,2,255} x methods x "
                 "cmd 0..4 x atyp 0..5 x domain length {0,1,2,255} x every truncation point x {one-shot, byte-wise, greeting "
                 "coalesced with the next byte, greeting alone} (complete in the thorough tier, a seeded sample in quick), UDP "
-                "datagrams (enumeration frag x atyp x length x payload x truncation + random), buildUDPHeader destinations, "
+                "datagrams (enumeration frag x atyp x length x payload x truncation, EVERY domain-name length 0..255 + random), "
+                "buildUDPHeader destinations and both TCP parsers with every name length 0..255, "
                 "histories of build/parse operations on ONE relay whose results are retained and re-compared after every later "
                 "operation (every ordered pair and triple of 8 destinations of all address types and of shorter/equal/longer "
                 "sizes + random histories) and rounds of 2..8 goroutines building at the same time on one relay, judged after a barrier; "
